@@ -403,11 +403,10 @@ func (c *Client) recv(keepaliveQuit chan<- struct{}) {
 				Space: stanza.NSStreamManagement,
 				Local: "a",
 			}, H: c.Session.SMState.Inbound}
-			err = c.Send(answer)
-			if err != nil {
-				c.ErrorHandler(err)
-				return
-			}
+			// A failed write means the connection is broken: the next read fails too
+			// and reports the loss (error callback and Disconnected event) exactly once,
+			// after the stanzas that were already received have been routed.
+			_ = c.Send(answer)
 		case stanza.StreamClosePacket:
 			// TCP messages should arrive in order, so we can expect to get nothing more after this occurs
 			c.transport.ReceivedStreamClose()
